@@ -85,6 +85,40 @@ def native_replay(repo, func, kind, seed, budget_s=60):
         return {'status': 'error', 'error': str(e)}
 
 
+def native_sweep(repo, funcs, seed, budget_s=300):
+    """Run-time evaluation of every clause of the given functions on the whole witness pool."""
+    runner = os.path.join(HERE, 'native', 'runner.py')
+    try:
+        p = subprocess.run(['/venv/bin/python', runner, '--repo', repo, '--funcs', ','.join(funcs), '--seed', str(seed)],
+                           capture_output=True, text=True, timeout=budget_s,
+                           env={**os.environ, 'PYTHONPATH': repo, 'PYTHONDONTWRITEBYTECODE': '1', 'PYTHONHASHSEED': '0'})
+        for line in p.stdout.splitlines():
+            if line.startswith('NATIVE-RESULT '):
+                return json.loads(line[len('NATIVE-RESULT '):])
+        return {'status': 'no-result', 'stderr': p.stderr[-1500:]}
+    except subprocess.TimeoutExpired:
+        return {'status': 'timeout'}
+    except Exception as e:
+        return {'status': 'error', 'error': str(e)}
+
+
+def clause_props(side, func, kind):
+    con = side.contracts.get(func)
+    if con is None:
+        return []
+    if kind == 'frame':
+        return con.frame
+    if kind == 'acc' and con.returns_iff:
+        return con.returns_iff[1]
+    if kind == 'exc':
+        return (con.raises[1] if con.raises else []) + (con.no_raise or [])
+    ps = []
+    for _l, p, k in con.ensures:
+        if k == kind:
+            ps += p
+    return ps
+
+
 def do_replay(path):
     d = load_json(path, None)
     if d is None:
@@ -177,6 +211,44 @@ def main():
             violations.append((o, nat))
         else:
             still_undecided.append(o)
+    # ---- run-time contract check of the same clauses on the real code (bounded; never counted as proved) -----
+    sweep = None
+    native_only = []
+    if not a.no_native and results:
+        sweep = native_sweep(a.repo, [r['key'] for r in results if not r['key'].startswith('lemma:')], seed)
+        if sweep and sweep.get('status') == 'violated':
+            failing_funcs = {(o['func']) for o, _ in violations}
+            for v in sweep['violations']:
+                if v['clause'] in ('spec-error', 'harness-error'):
+                    continue
+                if prop not in clause_props(side, v['func'], v['clause']):
+                    continue
+                if any(finding_matches(f, prop, {'func': v['func'], 'kind': v['clause'], 'origin': v['what']}) for f in findings):
+                    continue
+                # attach as the concrete failing input of a failing obligation of the same function, else report on its own
+                attached = False
+                for idx, (o, nat) in enumerate(violations):
+                    if o['func'] == v['func'] and not (nat and nat.get('status') == 'violated'):
+                        violations[idx] = (o, {'status': 'violated', 'witness': v, 'violations': [v]})
+                        attached = True
+                if not attached and v['func'] not in failing_funcs:
+                    native_only.append(v)
+            # undecided obligations of a function with a native witness become violations
+            for o in list(still_undecided):
+                ws = [v for v in sweep['violations'] if v['func'] == o['func'] and prop in clause_props(side, v['func'], v['clause'])]
+                if ws:
+                    still_undecided.remove(o)
+                    violations.append((o, {'status': 'violated', 'witness': ws[0], 'violations': ws[:5]}))
+            seen_no = set()
+            for v in native_only:
+                k = (v['func'], v['clause'])
+                if k in seen_no:
+                    continue
+                seen_no.add(k)
+                fake = {'id': f"{v['func']}#{v['clause']}@runtime", 'func': v['func'], 'kind': v['clause'], 'origin': v['what'], 'verdict': 'runtime-violation',
+                        'backend': 'native run-time contract check', 'reason': 'contract clause false on the real code', 'model': '', 'props': [prop],
+                        'route': 'runtime', 'time_s': 0.0}
+                violations.append((fake, {'status': 'violated', 'witness': v, 'violations': [v]}))
     seen = set()
     for o, f in known:
         key = (f['property'], f['func'], f['kind'], f.get('origin_contains', ''))
@@ -240,6 +312,8 @@ def main():
             'undecided': [o['id'] for o in still_undecided] + [r['key'] for r in oos],
             'vacuity': vac,
             'sidecar_assumption_scan': side.assumption_scan,
+            'runtime_contract_check': ({k: sweep.get(k) for k in ('status', 'calls', 'checked', 'skipped_by_requires', 'wall_s')} if sweep else None),
+            'runtime_contract_check_note': 'the same sidecar clauses evaluated at run time on the real functions over the witness pool (bounded; replay / cross-check only, never counted as proved)',
             'explanation': 'obligations = verification conditions generated from the current source of the functions under contract that carry a clause tagged with this property; each is one z3 query (pc and not goal); bounded routes would be listed under obligations_by_route',
         },
         'assumptions': trusted,
